@@ -1117,10 +1117,11 @@ def discharge(ob, timeout_ms=20000, seed=0, both=False):
     ob2 = E.Obligation(ob.name, ob.kind, pc2, ob.goal, ob.loc, ob.key, ob.info, ob.expect_sat, ob.abstracted)
     note = ' (asked without the quantified heap-typing axioms)'
     if ob.expect_sat:
-        r = _orig_discharge(ob2, timeout_ms, seed, both)
-        if r.get('status') == 'proved':
-            r['detail'] = (r.get('detail') or '') + note
-            return r
+        for budget in (timeout_ms, 4 * timeout_ms):
+            r = _orig_discharge(ob2, budget, seed, both)
+            if r.get('status') in ('proved', 'vacuous'):
+                r['detail'] = (r.get('detail') or '') + note
+                return r
         return _orig_discharge(ob, timeout_ms, seed, both)
     # fewer hypotheses first: a proof without the axioms is a proof; a counter-model without them may be ill typed,
     # so the full query gets its chance to refute it
@@ -1241,8 +1242,8 @@ def _pool_arg(ex, p):
 
 
 def pool_same_except(new, old, refs):
-    """every modelled field of every object of the pool other than `refs` is unchanged, and no object disappeared
-    (native: pools are {id: object} dicts)"""
+    """every modelled field of every object of the pool other than `refs` is unchanged, and no object other than
+    `refs` appeared or disappeared (native: pools are {id: object} dicts)"""
     ids = {id(r) for r in refs}
     for i, o in old.items():
         n = new.get(i)
@@ -1283,8 +1284,8 @@ def q_pool_same_except(ex, args, kwargs):
     out = []
     for name in po.cols:
         out.append(_except_eq(ex, pn.cols[name][0], po.cols[name][0], keys, ids=True))
-    i = z3.Int(f'__s!{ex.fresh_name("m")}')
-    out.append(_forall([i], z3.Implies(z3.Select(po.dom, i), z3.Select(pn.dom, i)), [z3.Select(po.dom, i)]))
+    # no object appears or disappears either (a new object must be named in `refs`)
+    out.append(_except_eq(ex, pn.dom, po.dom, keys, ids=True))
     return mk_bool(z3.And(*out))
 
 
